@@ -107,6 +107,14 @@ def run_item(item):
         repo_cwd = make_repo(url)
         if opts.get('--commit-style') in (None, 'raw', 'omit'):
             opts['--commit-style'] = gen.TAGS.get('commit', '#a0b0c0')      # commit lines are only linked when delta styles them
+    if case['kind'] == 'log' and repo_cwd is None and rng.random() < 0.3:
+        # the stream as git colours it for its pager, the commit line kept as it comes (raw) inside a decoration
+        case['lines'] = corpus.git_colorize(case['lines'])
+        case['lines'] = ['\x1b[33m' + l + '\x1b[m' if l.startswith('commit ') else l for l in case['lines']]
+        opts['--commit-style'] = 'raw'
+        opts['--commit-decoration-style'] = rng.choice(['bold yellow box ul', 'blue ul', 'box'])
+        case['meta'] = dict(case['meta'])
+        case['meta']['classes'] = list(case['meta']['classes']) + ['coloured-input-raw-commit-style']
     mode = 'pty' if rng.random() < 0.4 else 'pipe'
     size = (24, rng.choice([60, 80, 121, 200]))
     if mode == 'pty' and '--dark' not in opts and '--light' not in opts:
